@@ -144,6 +144,8 @@ type World struct {
 	// loop still polls it for EOF), which no real network allows.
 	Latency   time.Duration
 	inTransit atomic.Int32
+	// NoWait suspends the settling that follows every driver action.
+	NoWait bool
 }
 
 var preOnce sync.Once
@@ -257,6 +259,11 @@ func (w *World) transit() {
 // Quiesce waits until nothing moves any more, letting fake time pass only as
 // far as messages in transit need.
 func (w *World) Quiesce() {
+	if w.NoWait {
+		// the driver issues several actions for the same instant (an update and the
+		// requests that arrive while it is being applied) and settles afterwards
+		return
+	}
 	w.Sc.Settle()
 	for i := 0; i < 1000 && w.inTransit.Load() > 0; i++ {
 		time.Sleep(w.Latency)
